@@ -84,6 +84,30 @@ CLAIMED = {
                 "real-number axioms through Flocq (ClassicalDedekindReals.sig_forall_dec, sig_not_dec, Classical_Prop.classic, functional_extensionality_dep).",
         "technique": "Coq proof over source-regenerated tables + ported scanners; extracted-model/spec differential testing of the real parser",
     },
+    "C06": {
+        "category": "proof",
+        "text": "Coq theorems (Properties_C06.v: C06_sound, C06_sound_registered, C06_single_entry, C06_exact_preferred, C06_arity_none, C06_cast_out, C06_call_out, C06_registration, "
+                "C06_attr_null) over ports of boxed_cast, call_func, Param_Types, Attribute_Access, compare_type_to_param, filter, dispatch, dispatch_with_conversions, "
+                "function_less_than + stable_sort, for all overload lists, registration orders, argument tuples and conversion tables; the Cast_Helper_Inner/verify_type rules, "
+                "boxed_cast control flow, arity check and retry classes are regenerated from the source on every run (t_CastRules.py) and must satisfy rules_ok by computation. Tie: "
+                "19k (quick) / 204k (thorough, part under ASan) cases of a 61-signature catalogue diffed against the extracted model; oracle = extracted specification.",
+        "design_ref": "DESIGN.md §6 C06",
+        "note": "Hypotheses: callee bodies never throw bad_boxed_cast/arity_error/guard_error (known caveat of dispatch); env_ok; func_wf. exact_preferred is proved as 'what is entered is "
+                "exact' (the 'an exact overload is entered' half is oracle-only). Trusted: translator shape recogniser, catalogue environment mirrored in DispatchSpecRun.v "
+                "(validated by the correspondence), type_info::before ranks as input, extraction. No axioms.",
+        "technique": "Coq proof over source-regenerated cast/dispatch rules + extracted-model differential dispatch matrix",
+    },
+    "C07": {
+        "category": "proof",
+        "text": "Coq theorems (Properties_C07.v: C07_cast_guard, C07_cast_guard_boxed_cast, C07_grant, C07_const_propagates, C07_immutable) over the regenerated cast rules and guards "
+                "(t_CastRules.py, t_ConstRules.py: Equation/Prefix guards, Boxed_Number in-place pointer, Data::operator=, Handle_Return, stdlib wrapper forms): for every program of "
+                "aliasing routes and mutation attempts a const object keeps its value and every attempt ends in an error (or runs on a converted temporary). Tie: 31k/99k cases (type x "
+                "const source kind x route chain <=2 x mutator, plus control sources) diffed against the extracted model; oracle = extracted const_verdict on C++-side before/after values.",
+        "design_ref": "DESIGN.md §6 C07",
+        "note": "Assumes const-correct C++ callees (no const_cast). Two known findings (const container elements are mutable; an attempt on a converted temporary raises no error) are "
+                "keyed in known_findings.json. No axioms.",
+        "technique": "Coq proof over source-regenerated rules + extracted-model differential const matrix",
+    },
 }
 PENDING_REASON = "check not built yet in this round (work in progress; see DESIGN.md §6 for the planned Coq model and tie)"
 ALL = ["C%02d" % i for i in range(1, 21)]
